@@ -53,7 +53,7 @@ class Atoms():
                 if self.shx.debug:
                     print("deleting atom", at.fullname)
                 del self.all_atoms[n]
-                self.shx._delete_from_reslist(self.shx._reslist.index(at))
+                self.shx._delete_from_reslist(self.shx.index_of(at))
                 self._atomsdict.clear()
         # if self.shx.debug:
         #    print('Could not delete atom {}'.format(self.get_atom_by_id(key.atomid).fullname))
